@@ -38,6 +38,60 @@ theorem C09_sound (fns : List Fn) (look : LookKind → String → Option Val)
   · cases hrun
   · cases hrun
 
+/-! ### the analysis budget does not influence a finished answer -/
+
+theorem both_ok {x y : AOut} {b : Bool} (h : both x y = .ok b) : ∃ a c, x = .ok a ∧ y = .ok c ∧ b = (a || c) := by
+  cases x <;> cases y <;> simp [both] at h ⊢
+  exact h.symm
+
+theorem orB_ok {x : AOut} {q b : Bool} (h : orB x q = .ok b) : ∃ a, x = .ok a ∧ b = (a || q) := by
+  cases x <;> simp [orB] at h ⊢
+  exact h.symm
+
+/-- the analysis answer does not depend on the fuel once it finishes: one more unit of fuel gives the same answer -/
+theorem ana_mono_succ (fns : List Fn) : ∀ (f : Nat) (stack : List String) (t : ATask) (b : Bool),
+    ana fns f stack t = .ok b → ana fns (f + 1) stack t = .ok b := by
+  intro f
+  induction f with
+  | zero => intro stack t b h; simp [ana] at h
+  | succ n ih =>
+    intro stack t b h
+    rcases t with (_ | _ | _ | _ | _ | _ | _) | (_ | _) | (_ | _ | _ | _ | _ | _ | _ | _ | _) | (_ | _) | name
+    all_goals (simp only [ana] at h; generalize n + 1 = m at ih ⊢; simp only [ana])
+    all_goals first
+      | exact h
+      | exact ih _ _ _ h
+      | (obtain ⟨a, c, h1, h2, rfl⟩ := both_ok h; rw [ih _ _ _ h1, ih _ _ _ h2]; rfl)
+      | (obtain ⟨a, h1, rfl⟩ := orB_ok h; rw [ih _ _ _ h1]; rfl)
+      | (obtain ⟨a, c, h1, h2, rfl⟩ := both_ok h; obtain ⟨a', c', h3, h4, rfl⟩ := both_ok h2
+         rw [ih _ _ _ h1, ih _ _ _ h3, ih _ _ _ h4]; rfl)
+      | (split at h
+         · cases h
+         · obtain ⟨a, c, h1, h2, rfl⟩ := both_ok h; rw [if_neg (by assumption), ih _ _ _ h1, ih _ _ _ h2]; rfl)
+      | (by_cases hm : name ∈ stack
+         · rw [if_pos hm] at h ⊢; exact h
+         · rw [if_neg hm] at h ⊢
+           cases hf : List.find? (fun x => x.name == name) fns with
+           | none => rw [hf] at h; cases h
+           | some g => rw [hf] at h; exact ih _ _ _ h)
+
+theorem ana_mono (fns : List Fn) {f g : Nat} (hfg : f ≤ g) (stack : List String) (t : ATask) (b : Bool)
+    (h : ana fns f stack t = .ok b) : ana fns g stack t = .ok b := by
+  induction hfg with
+  | refl => exact h
+  | step _ ih => exact ana_mono_succ fns _ stack t b ih
+
+/-- **The answer is a property of the program, not of the analysis budget**: two budgets on which the analysis finishes
+give the same answer, so the soundness theorem below does not depend on which budget the query happened to run with. -/
+theorem C09_fuel_independent (fns : List Fn) (main : String) (f g : Nat) (a b : Bool)
+    (hf : hasQuantumRuntime fns f main = .ok a) (hg : hasQuantumRuntime fns g main = .ok b) : a = b := by
+  unfold hasQuantumRuntime at hf hg
+  rcases Nat.le_total f g with hle | hle
+  · have := ana_mono fns hle [] (.fn main) a hf
+    rw [this] at hg; cases hg; rfl
+  · have := ana_mono fns hle [] (.fn main) b hg
+    rw [this] at hf; cases hf; rfl
+
 /-- the lookups of an architecture spec resolve to first-order values -/
 theorem specLook_fo (s : ArchSpec) : ∀ k n v, specLook s k n = some v → v.fo = true := by
   intro k n v h
